@@ -13,7 +13,7 @@ from vmstate import Reader, decode_vm, diff, run_real, snapshot_vm  # noqa: E402
 
 PID = "C06"
 TARGETS = ["Properties/C06.vo"]
-MODEL_TARGETS = ["Spec/WordMachine.vo", "Lib/Enc.vo"]
+MODEL_TARGETS = ["Spec/WordMachine.vo", "Lib/Enc.vo", "Model/Listing.vo"]
 ASSUMPTIONS = [
     "the comparison is made on sources without debugging operations (with them the interpreted program has extra "
     "instruction slots, so code addresses held in registers legitimately differ); separately, deleting the "
@@ -21,7 +21,10 @@ ASSUMPTIONS = [
     "MUL only in low-word mode and CALL/RETURN with distinct operand registers (points the ISA leaves open)",
     "the independent word machine is Spec/WordMachine.v (specification decoder + specification step)",
 ]
-TRUSTED = ["coq/Spec/WordMachine.v, coq/Spec/EncTable.v (decode_word), coq/Spec/ISA.v"]
+TRUSTED = ["coq/Spec/WordMachine.v, coq/Spec/EncTable.v (decode_word), coq/Spec/ISA.v",
+           "coq/Model/Listing.v: hand model of the text assemble_and_print prints and a strict reader of the format "
+           "(n*0 = n zero cells, any other line one hexadecimal number), compared with the real --stdout --code / --data "
+           "output character by character and with int(line, 16)"]
 NOTES = []
 
 HEADER = """From Coq Require Import ZArith List Bool String.
@@ -112,6 +115,97 @@ def real_assemble(text, big):
     return {"text": out, "first_cell": zeros, "cells": cells, "words": [int(x, 16) for x in code]}
 
 
+LISTING_HEADER = """From Coq Require Import ZArith List Bool.
+From Hera.Model Require Import Listing.
+Import ListNotations.
+Open Scope Z_scope.
+Definition enc_words (o : option (list Z)) : list Z := match o with Some ws => 1 :: ws | None => [0] end.
+Definition enc_runs (o : option (list (Z * Z))) : list Z :=
+  match o with Some rs => 1 :: flat_map (fun r => [fst r; snd r]) rs | None => [0] end.
+Definition enc_opt (o : option Z) : list Z := match o with Some v => [1; v] | None => [0] end.
+"""
+
+
+def real_listing(text, big, which):
+    """The text `hera assemble --stdout --code|--data` prints, without the newline print() adds."""
+    from hera.main import main
+    with tempfile.TemporaryDirectory() as d:
+        p = os.path.join(d, "p.hera")
+        open(p, "w").write(text)
+        argv = ["assemble", "--stdout", which] + (["--big-stack"] if big else []) + [p]
+        _, exc, out, err = run_real(lambda: main(argv))
+    if exc:
+        return None
+    return out[:-1] if out.endswith("\n") else out
+
+
+def listing_correspondence(ctx, res, cases):
+    """Model/Listing.v against the real printer: the model's rendering of the words and cells is the printed text,
+    character by character; the strict reader applied to the REAL text gives back the words / the image; parse_hex
+    is int(line, 16) on lines of hex digits."""
+    rng = ctx.rng
+    terms, metas = [], []
+    dist = res["distribution"]
+    dist.update({"listings": 0, "listing_cells_max": 0, "hex_lines": 0})
+    for text, big, ds, words, cells in cases:
+        code_txt = real_listing(text, big, "--code")
+        data_txt = real_listing(text, big, "--data")
+        if code_txt is None or data_txt is None:
+            res["spec_failures"].append({"what": "hera assemble --stdout --code/--data raised on an accepted program", "program": text})
+            continue
+        dist["listings"] += 1
+        dist["listing_cells_max"] = max(dist["listing_cells_max"], len(cells))
+        cz = zlist([ord(c) for c in code_txt])
+        dz = zlist([ord(c) for c in data_txt])
+        terms += ["code_listing %s" % zlist(words), "data_listing %s %s" % (z(ds), zlist(cells)),
+                  "enc_words (read_code %s)" % cz, "enc_runs (read_image %s)" % dz]
+        metas.append((text, big, ds, words, cells, code_txt, data_txt))
+    hexlines = []
+    for _ in range(300):
+        n = rng.choice([1, 1, 2, 3, 4, 4, 4, 5, 6])
+        hexlines.append("".join(rng.choice("0123456789abcdefABCDEF") for _ in range(n)))
+    hexlines += ["0", "0000", "ffff", "FFFF", "10000", "c001", "g", "", "12 ", " 12", "0x12", "1_2", "+1", "-1", "zz"]
+    for h in hexlines:
+        terms.append("enc_opt (parse_hex %s)" % zlist([ord(c) for c in h]))
+    dist["hex_lines"] = len(hexlines)
+    outs = coqrun.eval_cases("C06l", LISTING_HEADER, terms, shard=200)
+    agree = 0
+    k = 0
+    for text, big, ds, words, cells, code_txt, data_txt in metas:
+        mc, md, rc, ri = outs[k:k + 4]
+        k += 4
+        ok = True
+        if mc != [ord(c) for c in code_txt] and words:
+            ok = False
+            res["disagreements"].append({"what": "code listing: Model/Listing.code_listing differs from the printed text",
+                                         "program": text, "printed": code_txt[:200], "model": "".join(map(chr, mc))[:200]})
+        if md != [ord(c) for c in data_txt]:
+            ok = False
+            res["disagreements"].append({"what": "data listing: Model/Listing.data_listing differs from the printed text",
+                                         "program": text, "big_stack": big, "printed": data_txt[:200],
+                                         "model": "".join(map(chr, md))[:200]})
+        if words and rc != [1] + words:
+            ok = False
+            res["spec_failures"].append({"what": "the printed code listing does not read back (one 4-digit hexadecimal word per "
+                                                 "line) as the assembled words", "program": text, "printed": code_txt[:200]})
+        want = [1, ds - 1, 0, 1, ds + len(cells)]
+        for c in cells:
+            want += [1, c]
+        if ri != want:
+            ok = False
+            res["spec_failures"].append({"what": "the printed data image does not read back (n*0 = n zero cells, then one "
+                                                 "hexadecimal cell per line) as data_start-1 zeroes, the next free cell and the "
+                                                 "data cells", "program": text, "big_stack": big, "printed": data_txt[:200]})
+        agree += ok
+    for h, o in zip(hexlines, outs[k:]):
+        strict = h != "" and all(c in "0123456789abcdefABCDEF" for c in h)
+        want = [1, int(h, 16)] if strict else [0]
+        if o != want:
+            res["disagreements"].append({"what": "Model/Listing.parse_hex differs from int(line, 16) on a line of hex digits",
+                                         "line": h, "model": o, "impl": want})
+    res["listing_agree"] = agree
+
+
 def real_run(text, big):
     from hera.main import main
     with tempfile.TemporaryDirectory() as d:
@@ -158,6 +252,7 @@ def correspondence(ctx, model_available=True):
         big = rng.random() < 0.3
         progs.append((text, big))
     terms, metas = [], []
+    listing_cases = []
     nontrivial = set()
     for text, big in progs:
         dist = res["distribution"]
@@ -201,6 +296,8 @@ def correspondence(ctx, model_available=True):
         cfg = "(mksettings %s true [] None)" % z(ds)
         terms.append("enc_wrun (wrun %d %s (image_state %s %s %s))" % (THROTTLE, zlist(asm["words"]), cfg, z(ds), zlist(cells)))
         metas.append((text, big, run, ds, len(cells)))
+        if len(listing_cases) < (40 if quick else 400):
+            listing_cases.append((text, big, ds, asm["words"], cells))
         if len(asm["words"]) > 2:
             nontrivial.add(text)
     res["cases"] = len(progs)
@@ -221,6 +318,8 @@ def correspondence(ctx, model_available=True):
             else:
                 agree += 1
         res["spec_vs_impl_agree"] = agree
+    if model_available:
+        listing_correspondence(ctx, res, listing_cases)
     res["spec_failures"] = res["spec_failures"][:5]
     res["nontrivial"] = len(nontrivial)
     res["rule"] = ("generated sources accepted in run and assemble mode (data statements of every kind, labels, "
@@ -229,7 +328,8 @@ def correspondence(ctx, model_available=True):
                    "the independent word machine (Spec/WordMachine.v evaluated in Coq); `hera --throttle %d` runs the "
                    "source; registers, flags, memory, halt status and pc are compared. Also: adding debugging ops "
                    "leaves the assembler output byte-identical; disassembling the emitted words and re-assembling "
-                   "gives the same words. Non-trivial: more than two instructions; distinct by text."
+                   "gives the same words. The text of `--stdout --code` and `--stdout --data` is compared character by character "
+                   "with Model/Listing.v and read back by its strict reader. Non-trivial: more than two instructions; distinct by text."
                    % (THROTTLE, THROTTLE))
     res["samples"] = [{"program": progs[0][0], "big_stack": progs[0][1]}]
     return res
